@@ -142,7 +142,8 @@ def finish(ctx, t0, level, floor, explanation, assumptions, trusted_base, extra_
                        False, 'only %d obligation instances derived, floor is %d: a rule stopped matching (vacuous pass refused)' % (nobs, floor), None, 'all'))
     for o in known:
         print('KNOWN-FINDING: property=%s %s :: %s' % (prop, o.key, kf[o.key][1]))
-    evdir = os.path.join(VERIF, 'evidence')
+    # evidence describes /repo; runs against a scratch copy (self-test, seeded changes) keep theirs with their cache
+    evdir = os.path.join(VERIF, 'evidence') if os.path.realpath(REPO) == '/repo' else os.path.join(CACHE, 'evidence')
     os.makedirs(evdir, exist_ok=True)
     vpath = os.path.join(evdir, '%s.violations.json' % prop)
     if viol:
